@@ -24,17 +24,16 @@ class RefArc(object):
 
     @property
     def size(self):
-        return max(self.rx, self.ry, math.hypot(self.x1 - self.x2, self.y1 - self.y2))
+        chord = math.hypot(self.x1 - self.x2, self.y1 - self.y2)
+        if abs(self.dtheta) <= 90:
+            return 2 * chord          # a short arc is about as large as its chord, whatever the radius
+        return max(self.rx, self.ry, chord)
 
 
 def _angle(ux, uy, vx, vy):
     """signed angle in degrees from u to v (F.6.5.4)"""
-    d = math.hypot(ux, uy) * math.hypot(vx, vy)
-    c = max(-1.0, min(1.0, (ux * vx + uy * vy) / d))
-    a = math.degrees(math.acos(c))
-    if ux * vy - uy * vx < 0:
-        a = -a
-    return a
+    # atan2(cross, dot): the same angle as the acos formula of the note, at full precision
+    return math.degrees(math.atan2(ux * vy - uy * vx, ux * vx + uy * vy))
 
 
 def lam_of(start, end, rx, ry, rot_deg):
